@@ -35,6 +35,7 @@ type slDriver struct {
 	threads [][]slOp
 	mm      bool
 	fine    bool // plain stores to shared memory are scheduling points too
+	bound   int  // preemption bound override (0 = tier default)
 }
 
 func (d slDriver) name() string {
@@ -56,6 +57,9 @@ func (d slDriver) name() string {
 	}
 	if d.fine {
 		mode += "+fine"
+	}
+	if d.bound > 0 {
+		mode += fmt.Sprintf("+c%d", d.bound)
 	}
 	return fmt.Sprintf("%s/init=%s/%s", mode, strings.Join(in, ","), strings.Join(ts, "|"))
 }
@@ -155,6 +159,12 @@ func slDrivers(tier string) []slDriver {
 		d.fine = true
 		out = append(out, d)
 	}
+	// three deleters of adjacent level-0 nodes suspended between mark and unlink, then a search: needs
+	// four preemptions; the driver is small enough (level-0 nodes only) to afford that bound
+	if tier == "thorough" {
+		flat := []slInit{{1, 0}, {2, 0}, {3, 0}}
+		out = append(out, slDriver{init: flat, threads: [][]slOp{{{'D', 3, 0}, {'L', 3, 0}}, {{'D', 2, 0}}, {{'D', 1, 0}}}, bound: 4})
+	}
 	// fine mode on the single-op pairs that race an insert with a delete or another insert of the same key
 	for _, init := range [][]slInit{nil, k2, k13} {
 		for _, l := range []int{1, 2} {
@@ -202,6 +212,10 @@ func slJobs(prop string) func(tier string) []Job {
 				bound = 3
 			}
 			j := Job{Name: prop + "/" + d.name()}
+			if d.bound > 0 {
+				bound = d.bound
+				j.Shards = 16
+			}
 			j.Run = func(jc *JobCtx) { runSlDriver(jc, prop, d, bound) }
 			jobs = append(jobs, j)
 		}
